@@ -30,12 +30,12 @@ LEVELS = ["0", "1", "2", "s"]
 
 
 def plan(tier, seed, avoid):
-    n, per = (160, 5) if tier == "quick" else (4000, 50)
+    n, per = (128, 4) if tier == "quick" else (4000, 50)
     return [{"start": s, "count": per} for s in range(0, n, per)]
 
 
 def floors(tier):
-    return {"evaluations": 300, "distinct_nontrivial": 150, "observed.path.A": 100, "observed.path.B": 100}
+    return {"evaluations": 250, "distinct_nontrivial": 120, "observed.path.A": 80, "observed.path.B": 80}
 
 
 def run_shard(spec):
